@@ -244,6 +244,7 @@ def case_align(ctx, drv, case):
     ctx.dist[f"align:n={n}"] += 1
     ctx.dist[f"align:up={up}"] += 1
     ctx.dist[f"align:nk={nk}"] += 1
+    ctx.dist[f"align:kde_sigma={case['sigma']}"] += 1
     dc = build(images, [deg] * n, pad, "median", case["sigma"], nk)
     k0 = [np.array(k, dtype=float, copy=True) for k in dc.knots]
     warped = [np.asarray(a, dtype=np.float64).copy() for a in dc.images_warped.array]
@@ -272,7 +273,7 @@ def case_align(ctx, drv, case):
         ctx.stat_max("align:dxy model-vs-impl", dist)
         if not dist <= TOL32 * max(1.0, max(abs(v) for p in md for v in p)):
             ctx.disagree("align", case, {"dxy": md}, {"dxy": dxy}, note=f"alignShifts/removeMean vs align_translation (mod-canvas distance {wrapdist:.3g})")
-    ctx.mark(("align", case["identical"], shape_sig(H, W), nk, angle_class(deg), n, up))
+    ctx.mark(("align", case["identical"], shape_sig(H, W), nk, angle_class(deg), n, up, case["sigma"]))
     ctx.sample(case, limit=6)
 
 
@@ -281,10 +282,11 @@ def gen_align(rng, i):
     H = rng.randint(4, 8)
     W = H if rng.chance(0.25) else rng.randint(4, 8)
     n = rng.randint(2, 4)
-    up = rng.choice([1, 2, 4, 8, 8, 16]) if identical else rng.choice([1, 2, 4, 8])
+    # the quantifier ranges over upsampling factors (odd ones included) and KDE widths
+    up = rng.choice([1, 2, 3, 4, 5, 7, 8, 16]) if identical else rng.choice([1, 2, 3, 4, 5, 8])
     case = {"stream": "align", "H": H, "W": W, "nk": rng.randint(1, 4), "pad": rng.choice([0.0, 0.25, 0.5]),
             "deg": rng.weighted([(0, 1), (90, 1), (rng.randint(0, 359), 4)]), "n": n, "up": up, "identical": identical,
-            "sigma": rng.choice([0.5, 1.0]), "max_shift": rng.choice([32, 32, 3, 5]), "sub": rng.next() & 0xFFFFFFFF}
+            "sigma": rng.choice([0.25, 0.5, 0.75, 1.0, 1.5]), "max_shift": rng.choice([32, 32, 3, 5]), "sub": rng.next() & 0xFFFFFFFF}
     if not identical:
         case["ts"] = [[0, 0]] + [[rng.randint(-1, 1), rng.randint(-1, 1)] for _ in range(n - 1)]
     return case
@@ -313,7 +315,7 @@ def run(ctx):
         for i in range(ctx.n(300, 5000)):
             run_case(ctx, drv, gen_splat(rng.fork(i)))
         rng = ctx.rng.fork(3)
-        for i in range(ctx.n(45, 400)):
+        for i in range(ctx.n(60, 500)):
             run_case(ctx, drv, gen_align(rng.fork(i), i))
     finally:
         drv.close()
